@@ -132,10 +132,20 @@ class TracedRace:
         return len(self.w.workers())
 
     def col_of(self, c, tid):
+        """tid = (task id, client index in task) -> column of client c's row in the allocation matrix."""
+        t, idx = tid
         for j, a in enumerate(self.driver.allocations[c]):
-            if a is not None and hasattr(a, "task") and getattr(a.task, "name", None) == "t%d" % tid:
+            if a is not None and hasattr(a, "task") and getattr(a.task, "name", None) == "t%d" % t and a.client_index_in_task == idx:
                 return j
-        raise tlc.MachineryError("task t%d not allocated to client %d" % (tid, c))
+        raise tlc.MachineryError("task t%d[%d] not allocated to client %d" % (t, idx, c))
+
+    def cell_of_request(self, c, req):
+        """(task id, client index in task) of the cell whose executor issued the pending request of client c."""
+        t = int(req["path"].rsplit("/", 1)[1])
+        cur = self.w.current_cell.get(c)
+        if cur is None or cur[0] != t:
+            raise tlc.MachineryError("client %d has a request for t%d but its executor runs %s" % (c, t, cur))
+        return cur
 
     def _elem(self, c, j):
         from esrally.driver import driver
@@ -230,7 +240,7 @@ class TracedRace:
                 continue
             tid = last[c]
             n = self.completed.get((c, tid), 0)
-            reqs = self.task_reqs[tid]
+            reqs = self.task_reqs[tid[0]]
             st = "pend" if c in w.pending else ("done" if (c, tid) in fin_set else "pend")
             if c in w.cell_override and (w.cell_override[c] == "failed" or st == "pend"):
                 st = w.cell_override[c]
@@ -241,7 +251,7 @@ class TracedRace:
         def was_cut(c, tid):
             if w.cell_override.get(c) == "failed" and last.get(c) == tid:
                 return False
-            reqs = self.task_reqs[tid]
+            reqs = self.task_reqs[tid[0]]
             if reqs == ETERNAL:
                 return True
             if reqs == TIMED:
@@ -358,7 +368,7 @@ class TracedRace:
     def _complete_request(self, c, service_time=None):
         w = self.w
         req = w.pending[c]
-        tid = int(req["path"].rsplit("/", 1)[1])
+        tid = self.cell_of_request(c, req)
         n = self.completed.get((c, tid), 0) + 1
         sid = (c, self.col_of(c, tid), n)
         self.vid_info[req["n"]] = sid
@@ -397,18 +407,13 @@ class TracedRace:
                     # should the implementation go on after this request its sample must still be attributable
                     c = dec[2]
                     req = w.pending[c]
-                    tid = int(req["path"].rsplit("/", 1)[1])
+                    tid = self.cell_of_request(c, req)
                     self.vid_info[req["n"]] = (c, self.col_of(c, tid), self.completed.get((c, tid), 0) + 1)
                 w.fail_request(dec[2], self.req_variant)
             elif kind == "param":
                 c = dec[2]
                 req = w.pending[c]
-                tid = int(req["path"].rsplit("/", 1)[1])
-                idx = None
-                for a in self.driver.allocations[c]:
-                    if a is not None and hasattr(a, "client_index_in_task") and a.task.name == "t%d" % tid:
-                        idx = a.client_index_in_task
-                w.param_fault = (tid, idx)
+                w.param_fault = self.cell_of_request(c, req)
                 self._complete_request(c, service_time)
                 if w.fault_fired:
                     w.cell_override[c] = "failed"
@@ -535,7 +540,7 @@ class TracedRace:
         for c, row in enumerate(self.driver.allocations):
             for j, a in enumerate(row):
                 if isinstance(a, drvmod.TaskAllocation) and a.task.completes_parent and self._elem(c, j) == jp:
-                    if (c, int(a.task.name[1:])) not in fin:
+                    if (c, (int(a.task.name[1:]), a.client_index_in_task)) not in fin:
                         self.cct_early = True
 
     def control_signature(self):
@@ -665,13 +670,8 @@ class TracedRace:
             vid = inv[sid]
             ds = by.get(vid, [])
             c, col, _n = sid
-            tid = None
-            for t, task in self.w.tasks_by_id.items():
-                try:
-                    if self.col_of(c, t) == col:
-                        tid = t
-                except tlc.MachineryError:
-                    pass
+            a = self.driver.allocations[c][col]
+            tid = int(a.task.name[1:])
             main = [d for d in ds if d.get("operation") != "dep-op"]
             dep = [d for d in ds if d.get("operation") == "dep-op"]
             meta_ok = all(
